@@ -73,7 +73,10 @@ def _system_case(ctx, max_m=6, max_ch=8):
             rng.shuffle(ref)
         if np.min(np.abs(S.phi[ref, :]).max(axis=0)) < 0.2:
             continue
-        br = math.ceil(2 * m / r) + 1 + rng.randint(0, 3)
+        idx = sysgen.observability_index(S, ref)
+        if idx is None:
+            continue
+        br = idx + 1 + rng.randint(0, 3)
         N = rng.randint(400, 1500)
         amp = g.standard_normal(m) + 1j * g.standard_normal(m)
         amp /= np.abs(amp)
